@@ -36,7 +36,7 @@ claim("C06", "exploration",
   "DESIGN.md §5 C06")
 claim("C20", "exploration",
   "The C06 histories with a recording listener factory (all functions or a tape-chosen subset): the plan model predicts the exact event stream - before(params, call chain per call engine), after(results), abort - including unwinding through re-entrant host calls; checked by a bracketing automaton plus exact comparison, on both engines against the same model, with results/state equal to the listener-free semantics. Deep chains (31-60 frames) are judged against recorded known-finding signatures. Sampling, not proof.",
-  "Trusted: plan model; i32 values are compared in their low 32 bits and only the first len(ParamTypes/ResultTypes) slots (the compiler passes wider slices); the module argument of listener callbacks is not compared; tail calls and the recursion functions carry no listeners.",
+  "Trusted: plan model; i32 values are compared in their low 32 bits; the length of the slices handed to the listener is compared with the signature; the module argument of listener callbacks is not compared; tail calls carry no listeners and the recursion functions only counting ones (class overflow). Known findings recognised by signature: compiler abort cap 30, compiler stack iterator cap 29, compiler delivers no Abort on stack exhaustion. Class termination reuses the C07 scenarios under a bracket-checking listener.",
   "deterministic simulation: scripted fault histories with recording listeners vs predicted event stream (exactly-once bracketing, nesting, values, stack chains)",
   "DESIGN.md §5 C20")
 
